@@ -64,6 +64,11 @@ fn jlist(items: Vec<String>) -> String {
 struct Cx<'tcx> {
     tcx: TyCtxt<'tcx>,
     externs: BTreeMap<String, String>,
+    // external (std) functions whose MIR is available in crate metadata: exported too, so that the
+    // rule engine can interpret std combinators instead of needing a hand-written model for each
+    ext_queue: Vec<(DefId, u32)>,
+    ext_seen: std::collections::HashSet<DefId>,
+    cur_depth: u32,
 }
 
 impl<'tcx> Cx<'tcx> {
@@ -130,6 +135,10 @@ impl<'tcx> Cx<'tcx> {
             false
         };
         let krate = self.tcx.crate_name(did.krate).to_string();
+        if matches!(kind, DefKind::Fn | DefKind::AssocFn | DefKind::Closure) && matches!(krate.as_str(), "core" | "alloc" | "std") && self.cur_depth < 5 && !self.ext_seen.contains(&did) && self.tcx.is_mir_available(did) {
+            self.ext_seen.insert(did);
+            self.ext_queue.push((did, self.cur_depth + 1));
+        }
         let v = format!(
             "{{\"crate\":{},\"panics_doc\":{},\"unsafe\":{},\"kind\":{}}}",
             esc(&krate),
@@ -276,7 +285,12 @@ impl<'tcx> Cx<'tcx> {
                 }
             }
             ConstValue::Indirect { .. } => {
-                if depth < 4 {
+                let destructurable = match ty.kind() {
+                    ty::Adt(adt, _) => !adt.is_union() && owner.is_local(),
+                    ty::Tuple(_) => owner.is_local(),
+                    _ => false,
+                };
+                if depth < 3 && destructurable {
                     if let Some(d) = tcx.try_destructure_mir_constant_for_user_output(val, ty) {
                         let fields: Vec<String> = d.fields.iter().map(|(v, t)| self.const_value(owner, *v, *t, depth + 1)).collect();
                         let (vi, vn) = match (d.variant, ty.kind()) {
@@ -450,7 +464,13 @@ impl<'tcx> Cx<'tcx> {
                             match active { Some(f) => format!("{}", f.as_u32()), None => "null".into() }
                         )
                     }
-                    AggregateKind::Closure(did, _) => format!("\"agg\":\"closure\",\"def\":{}", esc(&self.path(*did))),
+                    AggregateKind::Closure(did, _) => {
+                        if !did.is_local() && !self.ext_seen.contains(did) && self.cur_depth < 5 && tcx.is_mir_available(*did) {
+                            self.ext_seen.insert(*did);
+                            self.ext_queue.push((*did, self.cur_depth + 1));
+                        }
+                        format!("\"agg\":\"closure\",\"def\":{}", esc(&self.path(*did)))
+                    }
                     AggregateKind::RawPtr(t, m) => format!("\"agg\":\"raw_ptr\",\"ty\":{},\"mut\":{}", esc(&self.ty(*t)), m.is_mut()),
                     other => format!("\"agg\":\"other\",\"repr\":{}", esc(&format!("{:?}", other))),
                 };
@@ -620,8 +640,9 @@ impl<'tcx> Cx<'tcx> {
             _ => false,
         };
         format!(
-            "{{\"id\":{},\"kind\":{},\"promoted\":{},\"def_kind\":{},\"span\":{},\"vis\":{},\"exported\":{},\"unsafe\":{},\"arg_count\":{},\"impl_trait\":{},\"impl_self\":{},\"trait_of\":{},\"parent\":{},\"in_test\":{},\"locals\":{},\"upvars\":{},\"blocks\":{}}}",
+            "{{\"id\":{},\"ext\":{},\"kind\":{},\"promoted\":{},\"def_kind\":{},\"span\":{},\"vis\":{},\"exported\":{},\"unsafe\":{},\"arg_count\":{},\"impl_trait\":{},\"impl_self\":{},\"trait_of\":{},\"parent\":{},\"in_test\":{},\"locals\":{},\"upvars\":{},\"blocks\":{}}}",
             esc(id),
+            !owner.is_local(),
             esc(kind),
             match promoted { Some(p) => format!("{}", p), None => "null".into() },
             esc(&format!("{:?}", def_kind)),
@@ -671,7 +692,7 @@ impl Callbacks for Cb {
             Err(_) => return Compilation::Continue,
         };
         let crate_name = tcx.crate_name(LOCAL_CRATE).to_string();
-        let mut cx = Cx { tcx, externs: BTreeMap::new() };
+        let mut cx = Cx { tcx, externs: BTreeMap::new(), ext_queue: Vec::new(), ext_seen: std::collections::HashSet::new(), cur_depth: 0 };
         let mut bodies = Vec::new();
         let mut errors: Vec<String> = Vec::new();
         for ldid in tcx.hir_body_owners() {
@@ -702,6 +723,26 @@ impl Callbacks for Cb {
                 other => errors.push(format!("unhandled body owner kind {:?} for {}", other, id)),
             }
         }
+        // external std bodies reachable from local code (bounded depth / size)
+        let want_ext = std::env::var("PRECIS_EXPORT_STD").map(|v| v != "0").unwrap_or(true);
+        let mut n_ext = 0;
+        while want_ext {
+            let Some((did, depth)) = cx.ext_queue.pop() else { break };
+            if n_ext >= 1500 {
+                break;
+            }
+            let kind = tcx.def_kind(did);
+            let body = tcx.optimized_mir(did);
+            if body.basic_blocks.len() > 250 {
+                continue;
+            }
+            cx.cur_depth = depth;
+            let id = cx.path(did);
+            let k = if matches!(kind, DefKind::Closure) { "closure" } else { "fn" };
+            bodies.push(cx.body(did, body, &id, k, None));
+            n_ext += 1;
+        }
+        cx.cur_depth = 0;
         // ADTs, statics, traits impls
         let mut adts = Vec::new();
         let mut statics = Vec::new();
